@@ -197,10 +197,15 @@ impl ContentResolver {
     }
 
     /// Clear all caches
+    ///
+    /// Only the lookup caches are dropped; every entry is found again through
+    /// the loaded root and encoding files. The `FileDataID` map is the index
+    /// built by `load_root_file` (there is no other path from a `FileDataID`
+    /// to the root file), so it stays: clearing it made every `FileDataID`
+    /// unresolvable until the root file was loaded again.
     pub fn clear_caches(&self) {
         self.path_cache.clear();
         self.content_cache.clear();
-        self.file_data_id_map.clear();
     }
 
     /// Get the size of content by content key
